@@ -4,7 +4,7 @@ import numpy as np, pandas as pd
 from core import Result
 import proto, gen, implutil
 
-THEOREMS = ['C20_offset', 'C20_markers_sound', 'C20_markers_complete', 'C20_mask_sound', 'C20_mask_complete', 'C20_truncation_counterexample', 'C20_routing']
+THEOREMS = ['C20_offset', 'C20_markers_sound', 'C20_markers_complete', 'C20_mask_sound', 'C20_mask_complete', 'C20_truncation_counterexample', 'C20_routing', 'C20_panel', 'C20_panel_steps']
 RULE = ("cycle tables of both centrings from generated signals (fs in {100, 128, 250, 1000}) x x-limits None or on the sample grid: random windows, window edges exactly on a "
         "side extremum / centre extremum, windows without a complete cycle, grid times whose product with fs is not exact in float64 (0.29 s at 100 Hz) x plot_only_result x interp x "
         "the cyclepoint-kind switches; plot_cyclepoints_df, plot_burst_detect_summary (also through Bycycle.plot, half of those on an object that has drawn before and whose edges were recomputed since) and plot_burst_detect_param under the Agg backend, observed "
@@ -222,6 +222,21 @@ def evaluate(ctx, cases):
                 implutil.quiet(plot_burst_detect_param, df, sig, fs, 'monotonicity', 0.5, xlim=xlim, interp=c['interp'], ax=ax)
                 msg = _check_panel(_lines(ax), df, 'monotonicity', 0.5, fs, lo, hi, side, cen, c['interp'])
                 nt = w is not None
+                if msg is None:
+                    # the Lean model of the panel (Plots.lean panelCycles / panelPoints / panelSpans, theorems C20_panel, C20_panel_steps) against what was drawn
+                    if w is None: stop_incl = n
+                    else:
+                        stop_incl = int(round(xlim[1] * fs)) + 3
+                        while not (stop_incl / fs <= xlim[1]): stop_incl -= 1
+                    cyc = '[' + ','.join('[%d,%d,%d,%s]' % (a, cc, b, proto.enc_rat(float(v))) for a, cc, b, v in
+                                         zip(df['sample_last_' + side].values, df['sample_' + cen].values, df['sample_next_' + side].values, df['monotonicity'].values)) + ']'
+                    L_ = _lines(ax)[0]
+                    drawn_pts = [[str(int(round(x * fs))), proto.enc_rat(float(y))] for x, y in zip(L_['x'], L_['y'])]
+                    def _xext(p_):       # (axvspan: a Rectangle in current matplotlib, a Polygon in older ones)
+                        if hasattr(p_, 'get_width'): return p_.get_x(), p_.get_x() + p_.get_width()
+                        xs_ = [v[0] for v in p_.get_xy()]; return min(xs_), max(xs_)
+                    spans = sorted([int(round(_xext(p_)[0] * fs)), int(round(_xext(p_)[1] * fs))] for p_ in ax.patches)
+                    corr_items.append(('plot.panel %s %d %d %d %s 1/2' % (proto.enc_bool(c['interp']), lo, max(hi - lo + 1, 0), stop_incl, cyc), ('panel', drawn_pts, [[str(a), str(b)] for a, b in spans])))
         except Exception as e:
             msg = 'raised %s: %s' % (type(e).__name__, str(e)[:100]); nt = True
         finally:
@@ -234,6 +249,10 @@ def evaluate(ctx, cases):
         cm = None
         for rq, got in corr_items:
             a = next(ans)
+            if isinstance(got, tuple) and got[0] == 'panel':
+                ok_ = isinstance(a, list) and len(a) == 2 and a[0] == got[1] and sorted(a[1]) == sorted(got[2])
+                if not ok_ and cm is None: cm = 'model plot.panel predicts %s, drawn %s' % (str(a)[:160], str(list(got[1:]))[:160])
+                continue
             pred = sorted(int(v) for v in a) if isinstance(a, list) else a
             if isinstance(pred, list):
                 # a cyclepoint exactly ON the first / last sample of the view is selected through a float product
